@@ -15,6 +15,7 @@ import (
 	"os"
 	"os/exec"
 	"path/filepath"
+	"runtime/debug"
 	"sort"
 	"strings"
 	"sync"
@@ -27,6 +28,8 @@ type Config struct {
 	Body      func(*Run)
 	Horizon   int
 	MaxPoints int
+	// MaxBound overrides CheckOpts.MaxBound for this config (0 = default).
+	MaxBound int
 	// ReleasePoints: see ExecOpts.
 	ReleasePoints bool
 }
@@ -353,6 +356,7 @@ func WorkerMain(cfgs []*Config) {
 	if path == "" {
 		return
 	}
+	debug.SetGCPercent(400)
 	var job Job
 	b, err := os.ReadFile(path)
 	if err == nil {
@@ -590,4 +594,9 @@ func (s *Stats) SortedFailKeys() []string {
 	}
 	sort.Strings(k)
 	return k
+}
+
+// ExploreLocal explores one config completely in this process (tests, profiling).
+func ExploreLocal(cfg *Config, bound int) *Stats {
+	return exploreUnits(cfg, &Job{Config: cfg.Name, Bound: bound, Units: []Unit{{Lo: 0, Hi: -1, Count: true}}})
 }
